@@ -1,9 +1,21 @@
 PROP = "C18"
-LEVEL = "exploration"
+LEVEL = "proof"
 CONTRACT_MODULES = ["convex_hull"]
-DEDUCTIVE = []
-EXPLANATION = "bounded run-time layer only so far"
-LEVEL_TEXT = ("Bounded exploration: lower/upper chains on all x-sorted curves over a 4-letter y alphabet up to n=6 (7) and random integer curves, "
-              "graham_scan on grid point sets incl. degenerate ones, against brute-force hulls in exact arithmetic. Not a proof.")
-LEVEL_NOTE = "bounded; integer coordinates (orientation signs exact in doubles)"
-TECHNIQUE = "bounded run-time contract checking against an exact brute-force oracle (stand-in; deductive contracts for the chains pending)"
+DEDUCTIVE = [
+    ("convex_hull", "kneeliverse.convex_hull.graham_scan_lower"),
+    ("convex_hull", "kneeliverse.convex_hull.graham_scan_upper"),
+]
+EXPLANATION = ("graham_scan_lower / graham_scan_upper are proved (mode R) for every x-sorted curve with n >= 2: the result is a strictly increasing "
+               "index chain from 0 to n-1, consecutive chain edges turn strictly counter-clockwise (clockwise), and every curve point between two "
+               "consecutive chain vertices lies on or above (below) that edge. Loop invariants: the chain property of the stack plus 'the points "
+               "strictly between the top and i are on the right side of line(top, i)'; the pop step is three orientation lemmas (points left of "
+               "the old top / the old top itself / points right of it), discharged as hints by nlsat on a polynomial abstraction. That a chain "
+               "with these properties is *the* hull chain (uniqueness) is a stated, unproved lemma; it is cross-checked against a brute-force "
+               "hull in exact arithmetic by the bounded layer, which also covers graham_scan (completion, extreme vertices subset of result "
+               "subset of boundary, clockwise vertex order in general position) on grid point sets incl. degenerate ones.")
+ASSUMPTIONS = ["mode R: orientation signs computed in doubles are taken to be the real signs (exact for integer coordinates below 2^25)",
+               "uniqueness of the convex chain with the proved properties (stated lemma, bounded cross-check)"]
+LEVEL_TEXT = ("Proof of the hull-chain properties of the lower and upper hull routines for all x-sorted curves (termination, strictly increasing chain "
+              "0..n-1, strict turns, all points on the correct side); graham_scan (comparator sort) is a labelled bounded stand-in.")
+LEVEL_NOTE = "A-REAL for orientation signs; graham_scan / _sort_points / _compare_points bounded only (a comparator sort through cmp_to_key is outside the contract language)"
+TECHNIQUE = "contract-based deductive verification (AST->VC, z3 incl. nlsat on polynomial abstractions, auto-active hints); bounded exact brute-force layer as labelled stand-in"
